@@ -20,7 +20,7 @@ CLAIMED = {
     "C15": {
         "text": "bin_image proved to be the block sum voxel-by-voxel on arrays of symbolic voxels (shapes <= 24/40 voxels, b<=3) and shape-consistent for every image side (symbolic, b<=6); "
                 "SubtomogramLoader.binning proved to keep the sampled physical region: b*A_bin(k)+(b-1)/2 == A_orig(b*k+(b-1)/2) for symbolic position, scale, box shape, rotation matrix, b in 1..6; scale, image and copy semantics checked.",
-        "note": "Trusted: z3, symx, C02's affine_transform contract, real numpy reshape/sum on object arrays. Not covered: BatchLoader.binning (polars-backed table), lazy-vs-eager dask images, boundary molecules (C02).",
+        "note": "Trusted: z3, symx, C02's affine_transform contract, real numpy reshape/sum on object arrays. BatchLoader.binning covered the same way (incl. compute=True). Not covered: numerical equality of lazy vs eager dask images, boundary molecules (C02).",
         "ref": "DESIGN.md §4 C15",
     },
     "C16": {
